@@ -114,7 +114,8 @@ PROPS = {
         k_quick=[], k_thorough=[],
     ),
     'C05': dict(
-        v=[('u_mb2_dstlen', ['*Tag::dst_len', '*_BASE_SIZE', 'DynSizedStructure::dst_len', 'MaybeDynSized::payload', 'MaybeDynSized::as_bytes']),
+        v=[('u_mb2_dstlen', ['*Tag::dst_len', '*_BASE_SIZE', 'DynSizedStructure::dst_len', 'MaybeDynSized::payload', 'MaybeDynSized::as_bytes',
+                             'CommandLineTag::cmdline', 'BootLoaderNameTag::name', 'ModuleTag::cmdline']),
            ('u_hdr_builder', ['InformationRequestHeaderTag::dst_len', 'INFOREQ_BASE_SIZE']),
            ('u_mb2_fb', ['FramebufferTag::buffer_type', 'Reader::*']),
            ('u_mb2_efi', ['EFIMemoryAreaIter::new', 'EFIMemoryAreaIter::next', 'EFIMemoryMapTag::memory_areas']),
@@ -323,7 +324,8 @@ PROPS['C16']['v'] = [('u_mb2_dstlen', ['*Tag::dst_len', '*_BASE_SIZE', 'DynSized
                      ('u_hdr_builder', ['*HeaderTag::dst_len', 'INFOREQ_BASE_SIZE', 'DynSizedStructure::dst_len',
                                         'HeaderTagHeader::set_size', 'HeaderTagHeader::payload_len',
                                         'Multiboot2BasicHeader::set_size', 'Multiboot2BasicHeader::payload_len'])]
-PROPS['C17']['v'] = [('u_mb2_dstlen', ['CommandLineTag::dst_len', 'BootLoaderNameTag::dst_len', 'ModuleTag::dst_len', 'COMMANDLINETAG_BASE_SIZE', 'BOOTLOADERNAMETAG_BASE_SIZE', 'MODULETAG_BASE_SIZE'])]
+PROPS['C17']['v'] = [('u_mb2_dstlen', ['CommandLineTag::dst_len', 'BootLoaderNameTag::dst_len', 'ModuleTag::dst_len', 'COMMANDLINETAG_BASE_SIZE', 'BOOTLOADERNAMETAG_BASE_SIZE', 'MODULETAG_BASE_SIZE',
+                                       'CommandLineTag::cmdline', 'BootLoaderNameTag::name', 'ModuleTag::cmdline'])]
 PROPS.setdefault('C11', dict(v=[], k_quick=[], k_thorough=[]))
 PROPS['C11']['v'] = [('u_hdr_core', ['Multiboot2Header::iter', 'Multiboot2Header::verify_checksum', 'Multiboot2Header::header_magic',
                                      'Multiboot2Header::arch', 'Multiboot2Header::length', 'Multiboot2Header::checksum', 'Multiboot2Header::calc_checksum',
